@@ -29,6 +29,16 @@ os.kill(os.getpid(), signal.SIGKILL)
 '''
 
 
+def pyval(i):
+    """the pipeline value of example i: falsy / None values are legal examples too"""
+    return {1: None, 2: 0, 3: ''}.get(i, i * 10 + 1)
+
+
+def enc(v, i):
+    """what the model calls the value of example i (i*10+1), or -1 if the implementation returned something else"""
+    return i * 10 + 1 if (v == pyval(i) and type(v) is type(pyval(i))) else -1
+
+
 def run_segment(ld, n, cdir, ops, sleep=0.0, handles=None):
     """executes ops in this process; returns (outs, calls)"""
     calls = collections.Counter()
@@ -37,7 +47,7 @@ def run_segment(ld, n, cdir, ops, sleep=0.0, handles=None):
         calls[i] += 1
         if sleep:
             time.sleep(sleep)
-        return i * 10 + 1
+        return pyval(i)
     handles = [] if handles is None else handles
     outs = []
     with warnings.catch_warnings():
@@ -59,12 +69,12 @@ def run_segment(ld, n, cdir, ops, sleep=0.0, handles=None):
                 if d is None:
                     outs.append(['nohandle'])
                 elif k == 'get':
-                    outs.append(['val', int(d[op[2]])])
+                    outs.append(['val', enc(d[op[2]], op[2] % n if -n <= op[2] < n else op[2])])
                 elif k == 'getnp':
                     import numpy as np
-                    outs.append(['val', int(d[np.int64(op[2])])])
+                    outs.append(['val', enc(d[np.int64(op[2])], op[2] % n if -n <= op[2] < n else op[2])])
                 elif k == 'slice':
-                    outs.append(['vals', [int(x) for x in d[op[2]:op[3]]]])
+                    outs.append(['vals', [enc(x, op[2] + j) for j, x in enumerate(d[op[2]:op[3]])]])
                 elif k == 'copy':
                     handles.append(d.copy(freeze=True))
                     outs.append(['new', len(handles) - 1])
@@ -130,7 +140,7 @@ def inspect_dir(cdir):
         stored = sorted(int(k) for k in keys)
         if len(set(stored)) != len(stored):
             stored.append(-2)        # the same example stored under two keys
-        bad = [k for k in keys if c[k] != int(k) * 10 + 1]
+        bad = [k for k in keys if enc(c[k], int(k)) < 0]
         c.close()
         if bad:
             stored.append(-1)
@@ -310,8 +320,8 @@ def direct(n, segments, res):
     if -2 in stored:
         fails.append(f'the directory holds the same example under two different keys: {stored}')
     for o in outs:
-        if o[0] == 'val' and (o[1] - 1) % 10 != 0:
-            fails.append(f'value {o[1]} is not a pipeline value')
+        if o[0] == 'val' and o[1] < 0:
+            fails.append('a read returned something that is not the pipeline value of that example')
     return fails[:1]
 
 
@@ -334,7 +344,7 @@ def random_kills(ld, r, work, count):
 
         def fn(i):
             calls[i] += 1
-            return i * 10 + 1
+            return pyval(i)
         try:
             with warnings.catch_warnings():
                 warnings.simplefilter('ignore')
@@ -345,8 +355,8 @@ def random_kills(ld, r, work, count):
                     before = sorted(int(k) for k in c.iterkeys())
                     c.close()
                 d = ld.new(list(range(n))).map(fn).diskcache(cache_dir=cdir, reuse=True, clear=True)
-                vals = [int(x) for x in d]
-                if vals != [i * 10 + 1 for i in range(n)]:
+                vals = list(d)
+                if vals != [pyval(i) for i in range(n)]:
                     fails.append(f'after kill -9 at a random instant the reopened cache serves {vals}')
                 rec = [i for i in before if calls[i]]
                 if rec:
